@@ -864,6 +864,7 @@ class C16(E2EProp):
                 cases.append(e2e.case_of(fm, "start\n.If f0.frundis\nafter\n", [("f0.frundis", "in f0\n.If %s\n.If %s\n" % (sp, sp)), ("sub/x", "")]))
                 cases.append(e2e.case_of(fm, "start\n.If %s\nafter\n" % sp, [("f0.frundis", "in f0\n.If f1.frundis\n"), ("f1.frundis", "in f1\n.If %s\n" % sp), ("sub/x", "")]))
             cases.append(e2e.case_of(fm, ".#de M\nXPN\n.If part.frundis\n.M\n.M\n.#.\nHEAD\n.M\nTAIL\n", [("part.frundis", "part\n.M\n")]))
+            cases.append(e2e.case_of(fm, "start\n.If f.frundis\nafter\n", [("f.frundis", "in f\n.#dv p ./\\*[p]\n.If \\*[p]f.frundis\n")]))
             cases.append(e2e.case_of(fm, ".#de m\n.If f.frundis\n.#.\n.m\nafter\n", [("f.frundis", "x\n.m\n.m\n")]))
             cases.append(e2e.case_of(fm, ".If f.frundis\n.m\nafter\n", [("f.frundis", ".#de m\n.If f.frundis\n.m\n.#.\n")]))
             cases.append(e2e.case_of(fm, ".#de t\n.P a Sm \\$1\n.t \\$1\n.t \\$1\n.#.\n.t x\nafter\n"))
